@@ -90,6 +90,9 @@ func (c *vC12) checkTuples(t *testing.T, n int, blocks []*vBlock) {
 	head := uint64(n)
 	for start := uint64(0); start <= head+2; start++ {
 		for end := uint64(0); end <= head+3; end++ {
+			if c.expired() {
+				return
+			}
 			valid := start >= 1 && start < end && end <= head+1
 			var root []byte
 			var rerr error
